@@ -15,15 +15,17 @@
    2. protocol level (Lang/TokSpec.v: permit counters + FIFO buffer + one phase per client between two scheduling
       points, all interleavings of any number of clients): capacity accounting, message accounting, FIFO exactly once
       (C19_protocol_invariant), a receiver holding a permit always finds a message (C19_recv_never_empty_handed), the
-      buffer never exceeds the capacity (C19_protocol_capacity), and the slot accounting at rest
-      (C19_slots_at_rest_partial).  The clause "a slot is given back for every value received by ANY receive method"
-      is FALSE for the code: blocking_recv keeps the slot (finding C19-F1) - the theorem proved has the leaked slots in
-      the equation, and C19_F1_protocol, C19_F1_model exhibit the failure on the protocol machine and on the executable model;
+      buffer never exceeds the capacity (C19_protocol_capacity), and the full clause "a slot is given back for every
+      value received by any receive method": at rest on an open channel free + len = k (C19_slots_at_rest).  Until
+      /repo 7bf2a6b blocking_recv kept its slot (finding C19-F1, fixed): C19_F1_protocol_regression and
+      C19_F1_model_regression show the repaired behaviour on the protocol machine and on the executable model;
    3. Semaphore / Mutex / RwLock: instances of the strictly fair BatchSemaphore, so conservation, exclusion and the
-      fairness invariant are corollaries of C18 (C19_sem_conservation, C19_lock_exclusion);
+      fairness invariant are corollaries of C18 (C19_sem_conservation, C19_lock_exclusion); the zero-permit paths of
+      Semaphore (fixed finding C19-F2, /repo bc6ccc4) are exercised by C19_F2_model_regression;
    4. oneshot: at most one value, delivered once (C19_oneshot_...); Notify: the pieces (C19_notify_...); its full
-      contract is FALSE for the code (findings C19-F3, C19-F5, exhibited on the executable model below) and is
-      checked against counting reference semantics by tools/toklayer.py;
+      contract is still FALSE for the code (finding C19-F3, exhibited on the executable model below; C19-F5 was
+      fixed by /repo 074a1e3, see C19_F5_model_regression) and is checked against counting reference semantics
+      by tools/toklayer.py;
    5. the link between 1./3. and 2. (every block of Lang/TokOps.v is one protocol step, the semaphores being counters by
       C18) is by construction of Lang/TokOps.v and is not a Coq theorem; the link model <-> Rust code is the
       differential check of tools/p_c19.py.
@@ -73,7 +75,7 @@ Print Assumptions C19_pop_takes_front.
 (* ================================================================== *)
 Theorem C19_protocol_invariant : forall k n steps a,
   arun (amp_init k n) steps = Some a ->
-  a_free a + cnt is_sgranted (a_cl a) + length (a_q a) + cnt is_popped (a_cl a) + a_leaked a + a_lost a = a_k a /\
+  a_free a + cnt is_sgranted (a_cl a) + length (a_q a) + cnt is_popped (a_cl a) + a_lost a = a_k a /\
   a_msgs a + cnt is_rgranted (a_cl a) + cnt is_pushed (a_cl a) = length (a_q a) /\
   a_sent a = a_rcvd a ++ a_q a.
 Proof. exact amp_run_from_init. Qed.
@@ -94,22 +96,26 @@ Theorem C19_recv_never_empty_handed : forall a i b,
 Proof. intros a i b H. split; [apply pop_never_stuck_granted | apply pop_never_stuck_now]; assumption. Qed.
 Print Assumptions C19_recv_never_empty_handed.
 
-(* Full statement of the property's clause: at rest on an open channel, a_free + length a_q = k.
-   It does not hold of the code (finding C19-F1); what holds has the slots kept by blocking_recv in it: *)
-Theorem C19_slots_at_rest_partial : forall k n steps a,
+(* "a slot is given back for every value received by any receive method": at rest on an open channel the free slots and
+   the buffered messages add up to the capacity, whatever mix of recv / try_recv / blocking_recv took the values *)
+Theorem C19_slots_at_rest : forall k n steps a,
   arun (amp_init k n) steps = Some a ->
   forallb is_idle (a_cl a) = true -> a_closed a = false ->
-  a_free a + length (a_q a) + a_leaked a = k /\ a_msgs a = length (a_q a).
+  a_free a + length (a_q a) = k /\ a_msgs a = length (a_q a).
 Proof. exact amp_at_rest. Qed.
-Print Assumptions C19_slots_at_rest_partial.
+Print Assumptions C19_slots_at_rest.
 
-(* the hypotheses are satisfiable, and the failing run: channel(1); send; blocking_recv leaves no slot and no message *)
-Example C19_F1_protocol :
-  option_map (fun a => (a_free a, a_q a, a_leaked a, a_cl a))
-    (arun (amp_init 1 1) [(0, LSendNow 7); (0, LSendRelease); (0, LRecvNow true)]) = Some (0, [], 1, [CIdle]) /\
-  option_map (fun a => (a_free a, a_q a, a_leaked a, a_cl a))
-    (arun (amp_init 1 1) [(0, LSendNow 7); (0, LSendRelease); (0, LRecvNow false); (0, LRecvGiveBack)]) = Some (1, [], 0, [CIdle]).
-Proof. split; vm_compute; reflexivity. Qed.
+(* the hypotheses are satisfiable; regression of C19-F1: channel(1); send; blocking_recv ends with the slot free again,
+   exactly like recv *)
+Example C19_F1_protocol_regression :
+  option_map (fun a => (a_free a, a_q a, a_rcvd a, a_cl a))
+    (arun (amp_init 1 1) [(0, LSendNow 7); (0, LSendRelease); (0, LRecvNow true); (0, LRecvGiveBack)]) = Some (1, [], [7], [CIdle]) /\
+  option_map (fun a => (a_free a, a_q a, a_rcvd a, a_cl a))
+    (arun (amp_init 1 1) [(0, LSendNow 7); (0, LSendRelease); (0, LRecvNow false); (0, LRecvGiveBack)]) = Some (1, [], [7], [CIdle]) /\
+  (* between the pop and the give-back the slot is accounted to the receiver, not lost *)
+  option_map (fun a => (a_free a, a_q a, cnt is_popped (a_cl a)))
+    (arun (amp_init 1 1) [(0, LSendNow 7); (0, LSendRelease); (0, LRecvNow true)]) = Some (0, [], 1).
+Proof. repeat split; vm_compute; reflexivity. Qed.
 
 Example C19_protocol_two_clients :
   option_map (fun a => (a_rcvd a, a_q a, a_free a, a_msgs a))
@@ -167,6 +173,7 @@ Print Assumptions C19_notify_pick_in_range.
 
 (* ================================================================== *)
 (* 5. The executable model on the witnesses of the findings            *)
+(*    (regressions for the repaired ones)                              *)
 (* ================================================================== *)
 Definition verdict (objs : store) (bodies : list (list top)) (script : list (option nat)) : outcome :=
   snd (run_tok 4000 MSNone objs bodies script 1%N).
@@ -176,23 +183,47 @@ Definition received (objs : store) (bodies : list (list top)) (script : list (op
   let w := fst (fst (run_tok 4000 MSNone objs bodies script 1%N)) in
   flat_map (fun ev => match ev with EvOp _ 61%N [_; 0%N; v] _ => [v] | _ => [] end) (rev (w_trace w)).
 
+(* the result records with a given tag, in trace order *)
+Definition oplog (objs : store) (bodies : list (list top)) (tag : N) : list (list N) :=
+  let w := fst (fst (run_tok 4000 MSNone objs bodies [] 1%N)) in
+  flat_map (fun ev => match ev with EvOp _ t vals _ => if N.eqb t tag then [vals] else [] | _ => [] end) (rev (w_trace w)).
+
 Definition chan1 : store := mpsc_new (Some 1%N) 1 [0%N].
 
-(* C19-F1: channel(1); blocking_send; blocking_recv; blocking_send deadlocks; with recv().await it passes *)
-Example C19_F1_model :
-  verdict chan1 [[TSend 1 0 0 7%N; TRecv 1 0; TSend 1 0 0 8%N]] [] = ODeadlock [0] /\
-  verdict chan1 [[TSend 1 0 0 7%N; TRecv 0 0; TSend 1 0 0 8%N]] [] = OPass.
-Proof. split; vm_compute; reflexivity. Qed.
+(* regression of C19-F1 (fixed by /repo 7bf2a6b): channel(1); blocking_send; blocking_recv; blocking_send passes, as it
+   does with recv().await; and channel(2) after two blocking round trips accepts a try_send *)
+Example C19_F1_model_regression :
+  verdict chan1 [[TSend 1 0 0 7%N; TRecv 1 0; TSend 1 0 0 8%N]] [] = OPass /\
+  verdict chan1 [[TSend 1 0 0 7%N; TRecv 0 0; TSend 1 0 0 8%N]] [] = OPass /\
+  oplog (mpsc_new (Some 2%N) 1 [0%N]) [[TSend 1 0 0 1%N; TSend 1 0 0 2%N; TRecv 1 0; TRecv 1 0; TChanInfo 0; TSend 2 0 0 3%N]] 65%N = [[0; 0; 2]%N] /\
+  oplog (mpsc_new (Some 2%N) 1 [0%N]) [[TSend 1 0 0 1%N; TSend 1 0 0 2%N; TRecv 1 0; TRecv 1 0; TChanInfo 0; TSend 2 0 0 3%N]] 60%N
+    = [[1; 0]; [1; 0]; [2; 0]]%N.
+Proof. repeat split; vm_compute; reflexivity. Qed.
 
-(* C19-F2: try_acquire_many(0) panics *)
-Example C19_F2_model : verdict [tok_sem_new 1%N [0%N]] [[TTry 71%N 0 0%N]] [] = OPanic 0.
+(* regression of C19-F2 (fixed by /repo bc6ccc4): try_acquire_many(0) and acquire_many(0) return an empty permit without
+   touching the semaphore; on a closed semaphore they report the closure *)
+Example C19_F2_model_regression :
+  verdict [tok_sem_new 1%N [0%N]] [[TTry 71%N true 0 0%N; TAcq 70%N false 0 0%N; TSemInfo 0]] [] = OPass /\
+  oplog [tok_sem_new 1%N [0%N]] [[TTry 71%N true 0 0%N; TAcq 70%N false 0 0%N; TSemInfo 0]] 71%N = [[0%N]] /\
+  oplog [tok_sem_new 1%N [0%N]] [[TTry 71%N true 0 0%N; TAcq 70%N false 0 0%N; TSemInfo 0]] 70%N = [[1%N]] /\
+  oplog [tok_sem_new 1%N [0%N]] [[TTry 71%N true 0 0%N; TAcq 70%N false 0 0%N; TSemInfo 0]] 76%N = [[1; 0]%N] /\
+  oplog [tok_sem_new 1%N [0%N]] [[TSemClose 0; TTry 71%N true 0 0%N; TAcq 70%N false 0 0%N]] 71%N = [[2%N]] /\
+  oplog [tok_sem_new 1%N [0%N]] [[TSemClose 0; TTry 71%N true 0 0%N; TAcq 70%N false 0 0%N]] 70%N = [[0%N]] /\
+  (* the locks have no zero path: RwLock::with_max_readers(0).write() still panics *)
+  verdict [tok_sem_new 0%N [0%N]] [[TAcq 86%N true 0 0%N]] [] = OPanic 0.
+Proof. repeat split; vm_compute; reflexivity. Qed.
+
+(* C19-F3 (still open): a notified, dropped Notified loses the notification.
+   Regression of C19-F5 (fixed by /repo 074a1e3): notify_waiters keeps the stored permit *)
+Example C19_F3_model :
+  verdict [notify_new] [[TNotified 0; TEnable 0; TNotifyOne 0; TDropN 0; TNotified 0; TAwaitN 1]] [] = ODeadlock [0].
 Proof. vm_compute; reflexivity. Qed.
 
-(* C19-F3: a notified, dropped Notified loses the notification; C19-F5: notify_waiters clears the stored permit *)
-Example C19_F3_F5_model :
-  verdict [notify_new] [[TNotified 0; TEnable 0; TNotifyOne 0; TDropN 0; TNotified 0; TAwaitN 1]] [] = ODeadlock [0] /\
-  verdict [notify_new] [[TNotifyOne 0; TNotifyAll 0; TNotified 0; TAwaitN 0]] [] = ODeadlock [0] /\
-  verdict [notify_new] [[TNotifyOne 0; TNotified 0; TAwaitN 0]] [] = OPass.
+Example C19_F5_model_regression :
+  verdict [notify_new] [[TNotifyOne 0; TNotifyAll 0; TNotified 0; TAwaitN 0]] [] = OPass /\
+  verdict [notify_new] [[TNotifyOne 0; TNotified 0; TAwaitN 0]] [] = OPass /\
+  (* and notify_waiters alone stores nothing *)
+  verdict [notify_new] [[TNotifyAll 0; TNotified 0; TAwaitN 0]] [] = ODeadlock [0].
 Proof. repeat split; vm_compute; reflexivity. Qed.
 
 (* a producer task and the consuming main thread over channel(1), under every script of four binary choices:
